@@ -278,6 +278,19 @@ func readArgTypes(c *Ctx) ([]types.Type, error) {
 				}
 			}
 		case *ssa.Const:
+		case *ssa.Call:
+			// a factory function of the package: the union over its returns
+			g := x.Common().StaticCallee()
+			if g == nil || g.Pkg != p.SPkg || g.Blocks == nil || g.Signature.Results().Len() != 1 {
+				return fmt.Errorf("argument of read is %s: static type set unknown", v)
+			}
+			for _, b := range g.Blocks {
+				if ret, ok := b.Instrs[len(b.Instrs)-1].(*ssa.Return); ok {
+					if err := collect(ret.Results[0], depth+1); err != nil {
+						return err
+					}
+				}
+			}
 		default:
 			return fmt.Errorf("argument of read is %s: static type set unknown", v)
 		}
